@@ -158,6 +158,31 @@ def file_gate(m, meta):
                 if has_alpha and alpha is None and px[3] != 255:
                     problems.append((mode, alpha, "alpha channel kept although transparency is disabled", px))
                 image.close()
+        # the file itself may be sent only when the render does not have to downscale it (pixel count of the source <= pixel count of
+        # the render) - for every shape of source, the very tall and the very wide included
+        import term_image.geometry as G
+        tests.set_cell_size(G.Size(10, 20))
+        for size in ((9, 300), (300, 9), (8, 8), (40, 41), (2000, 1)):
+            src = Image.new("RGB", size, (10, 200, 30))
+            path = os.path.join(d, f"c03_gate_{os.getpid()}_{size[0]}x{size[1]}.png")
+            src.save(path)
+            paths.append(path)
+            raw = open(path, "rb").read()
+            for dim in (dict(height=5), dict(width=4), dict(height=1)):
+                image = ITerm2Image.from_file(path)
+                image.read_from_file = True
+                try:
+                    image.set_size(**dim)
+                except Exception:  # noqa: BLE001  (a size that does not fit the stub terminal)
+                    image.close()
+                    continue
+                out = image._renderer(image._render_image, 0.5, method="whole")
+                mm = re.search(r"\x1b\]1337;File=([^:]*):([^\x07\x1b]*)", out)
+                data = base64.b64decode(mm.group(2))
+                rpx = image._get_render_size()
+                if data == raw and size[0] * size[1] > rpx[0] * rpx[1]:
+                    problems.append(("RGB file", size, "render size in pixels", tuple(rpx), "the untouched file was sent although it has to be downscaled"))
+                image.close()
     finally:
         ITerm2Image._supported, ITerm2Image._TERM, ITerm2Image._TERM_VERSION = saved
         for p in paths:
